@@ -3,7 +3,7 @@ import json
 import os
 
 from lib import common as C
-from checks import hsim, sync_gen, sync_eval
+from checks import hsim, sync_gen, sync_eval, mv_sync
 
 LEVEL = "proof"
 
@@ -69,6 +69,9 @@ def run(rep, tier, seed, replay=None):
         rep.cov["leanchecker"] = "ok" if okc else out
         if not okc:
             rep.violation("unverified", dict(broken="leanchecker Photon.Properties.C02", log=out), no_input=True)
+    if replay and json.load(open(replay)).get("harness") == "mv_sync":
+        mv_sync.run(rep, "C02", ['sem', 'semd'], tier, seed, json.load(open(replay))["program"])
+        return
     binary = hsim.build(rep)
     if not binary:
         return
@@ -103,3 +106,5 @@ def run(rep, tier, seed, replay=None):
                        "acceptor, the real count compared at every quiescence point; evaluations = trace events")
     rep.sample(progs[-1])
     sync_eval.evaluate(rep, "C02", progs, results, oracle, C.known_findings("C02"))
+    if not replay:
+        mv_sync.run(rep, "C02", ['sem', 'semd'], tier, seed)
